@@ -117,29 +117,31 @@ def execute(case):
     return out
 
 
-def _loops_with_two_setups_then_setup(body, after_outer=False):
-    """True iff some scf.for body has >=2 direct setup+launch statements of one accelerator and a
-    setup of that accelerator can execute after that loop (later statement at this or an outer level,
-    or - inside an enclosing loop - any statement of the enclosing body via its back-edge)."""
+def _loops_with_two_setups_then_setup(body):
+    """True iff some scf.for body starts its launches with a direct setup+launch statement of an accelerator,
+    sets that accelerator up at least once more anywhere in the body (directly or nested), and a setup of that
+    accelerator can execute after the loop (later statement at this or an outer level, or - inside an
+    enclosing loop - any statement of the enclosing body via its back-edge)."""
 
     def accs_in(stmts):
-        out = set()
+        out = []
         for s in stmts:
             if s["k"] == "sl":
-                out.add(s["acc"])
+                out.append(s["acc"])
             for key in ("body", "then", "else"):
-                out |= accs_in(s.get(key, []))
+                out += accs_in(s.get(key, []))
         return out
 
     def visit(stmts, later_accs, in_loop_accs):
         for i, s in enumerate(stmts):
-            rest = accs_in(stmts[i + 1 :]) | later_accs
+            rest = set(accs_in(stmts[i + 1 :])) | later_accs
             if s["k"] == "for":
-                direct = [c["acc"] for c in s["body"] if c["k"] == "sl"]
-                for a in set(direct):
-                    if direct.count(a) >= 2 and (a in rest or a in in_loop_accs):
+                direct = {c["acc"] for c in s["body"] if c["k"] == "sl"}
+                inside = accs_in(s["body"])
+                for a in direct:
+                    if inside.count(a) >= 2 and (a in rest or a in in_loop_accs):
                         return True
-                if visit(s["body"], rest, in_loop_accs | accs_in(s["body"])):
+                if visit(s["body"], rest, in_loop_accs | set(inside)):
                     return True
             elif s["k"] == "if":
                 if visit(s["then"], rest, in_loop_accs) or visit(s["else"], rest, in_loop_accs):
